@@ -1,4 +1,5 @@
 import Rbp.Proofs.Stats
+import Rbp.Proofs.RunSpec
 /-!
 # C15 — every simplestats figure equals an independent recomputation over the range
 Integer figures are proved equal to closed expressions over the delivered block list; means are exact rationals
@@ -59,6 +60,27 @@ theorem type_table_spec (ver : UInt8) (bs : List EBlock) (n : String) :
       ((typeEvents ver bs).find? (·.1 == n)).map fun f => (n, ((typeEvents ver bs).filter (·.1 == n)).length, f.2.1, f.2.2) := by
   rw [stats_types, bumpAll_lookup]
   rfl
+
+/-- **whole run.**  For a stored chain, `simplestats` — when none of its own u64 sums overflows and every coinbase-shaped
+    transaction has an output (`statsPanics`) — exits 0 and reports exactly the accumulator of the theorems above folded
+    over the delivered blocks -/
+theorem simplestats_run_spec (o : Run.Opts) (key : Option W.Bytes) (kvs : List (W.Bytes × W.Bytes)) (files : List Run.BlkFile)
+    (coin : Run.Coin) (ld : Run.Loaded) (hcoin : Run.coinOf o.coin = some coin) (hld : Run.loadIndex o kvs = .ok ld)
+    (hkey : key ≠ some []) (sz : Nat → Nat) (blk : Nat → W.Block)
+    (hs : ∀ k, o.start ≤ k → k < o.start + (ld.maxH + 1 - o.start) →
+      Run.Stored coin key (files.filterMap fun f => (Run.parseBlkIndex f.name).map fun n => (n, f)) ld.trimmed k (sz k) (blk k) ∧
+      (o.verify = true → Run.verifyBlock coin ld.trimmed (blk k).toR k = .ok ()))
+    (hne : o.start ≤ ld.maxH) (hcb : o.callback = "simplestats")
+    (hnp : statsPanics coin.version
+      ((List.range' o.start (ld.maxH + 1 - o.start)).map (fun k => (⟨k, sz k, (blk k).toR⟩ : EBlock))) = false) :
+    (Run.run o key kvs files).exit = 0 ∧
+    (Run.run o key kvs files).stdout = statsLines
+      (((List.range' o.start (ld.maxH + 1 - o.start)).map (fun k => (⟨k, sz k, (blk k).toR⟩ : EBlock))).foldl
+        (statsBlock coin.version) {}) := by
+  obtain ⟨h0, _, _, ho⟩ := Run.run_stored o key kvs files coin ld hcoin hld hkey sz blk hs hne
+    (by simp only [Run.callbackPanics, hcb]; exact hnp)
+  refine ⟨h0, ?_⟩
+  rw [ho]; simp only [Run.callbackOut, hcb]
 
 /-- non-vacuity: sizes whose sum exceeds 2^32 are summed exactly -/
 example : ([0x90000000, 0x90000000, 0x90000000] : List Nat).sum = 7247757312 ∧ 7247757312 > 2^32 := by decide
